@@ -21,7 +21,7 @@ CLAIMED = {
         note="Trusted: the reference interpreter sim/refsem.py (about 300 lines, exactly the clauses of the statement); "
              "steps whose outcome the statement leaves open (assignment+increase on one fluent, undefined fluent read "
              "by an effect, lazily vs strictly evaluated undefined reads) are skipped and counted.",
-        technique="deterministic simulation: seeded query histories on one simulator instance vs executable reference model",
+        technique="deterministic simulation: seeded query histories on one simulator instance, with queries that fail in user code, vs executable reference model",
     ),
     "C02": dict(
         section="4.1",
@@ -31,7 +31,7 @@ CLAIMED = {
              "(after other queries, including ones that failed internally) gives its first answer again.",
         note="Ground instances are enumerated by the harness from the descriptor; a well-typed query that raises has no "
              "truth value and fails the biconditional.",
-        technique="deterministic simulation: seeded interleavings of queries on one simulator instance, history oracles",
+        technique="deterministic simulation: seeded interleavings of queries on one simulator instance, with queries that fail in user code, history oracles",
     ),
     "C14": dict(
         section="4.2",
@@ -105,7 +105,7 @@ CLAIMED = {
              "against oneof/or constraints by brute force, non-hidden fluents against declared initial values, "
              "observations and goal verdicts against the reference interpreter.",
         note="z3 model enumeration order is neutralised by canonical sorting of the candidates handed to the PRNG shim.",
-        technique="deterministic simulation: owned PRNG, two-party action/observation protocol with refused actions vs reference model",
+        technique="deterministic simulation: owned PRNG, two-party action/observation protocol with refused and failing steps, earlier environments in the same process, vs reference model",
     ),
     "C36": dict(
         section="4.8",
@@ -113,7 +113,7 @@ CLAIMED = {
              "updates) under ancestor limits 1,2,3,20,None; after every operation every state is read back in full "
              "and compared with a dict per state; == and hash compared with valuation equality.",
         note="Sampling; the knob is set both on UPState itself and through a subclass.",
-        technique="deterministic simulation: seeded update/observer histories with randomised tuning knob vs map model",
+        technique="deterministic simulation: seeded update/observer histories with randomised tuning knob and failing defaults provider vs map model",
     ),
     "C38": dict(
         section="4.9",
@@ -122,7 +122,7 @@ CLAIMED = {
              "every operation the two look-ups are mutual inverses, names are valid, non-keyword, injective per namespace.",
         note="PDDL writer only: the ANML writer keeps no state between calls and has no look-up API, its half of C38 is a "
              "pure function of the problem and is not covered.",
-        technique="deterministic simulation: call-order histories on one writer with injected stream faults",
+        technique="deterministic simulation: call-order histories on one writer with injected stream faults, earlier writers in the same process",
     ),
 }
 
